@@ -105,9 +105,9 @@ type Session struct {
 	Fault   int // index of the counted operation to fail, -1 = none
 	NOps    int
 	Trace   []int
-	Ran     int // executions of the business callback (not transactional)
+	Ran     int                                   // executions of the business callback (not transactional)
 	Gate    func(s *Session, kind int, key *fkey) // nil = sequential
-	Visible func(kind int) bool                  // journal filter (race mode hides begin/prepare)
+	Visible func(kind int) bool                   // journal filter (race mode hides begin/prepare)
 	Misuse  string
 }
 
@@ -138,7 +138,9 @@ func (c *connector) Driver() driver.Driver                        { return fdriv
 
 type fdriver struct{}
 
-func (fdriver) Open(string) (driver.Conn, error) { return nil, errors.New("fakedrv: use the connector") }
+func (fdriver) Open(string) (driver.Conn, error) {
+	return nil, errors.New("fakedrv: use the connector")
+}
 
 type txn struct {
 	fence   map[fkey]*frow // nil value = deleted
@@ -163,16 +165,17 @@ const (
 )
 
 type parsed struct {
-	kind stmtKind
-	cols []string // insert: column list; update: set columns then where columns; others: where columns
-	nset int
+	kind   stmtKind
+	nolock bool     // select without FOR UPDATE: plain read, takes and waits for no lock
+	cols   []string // insert: column list; update: set columns then where columns; others: where columns
+	nset   int
 }
 
 var (
 	reSpace = regexp.MustCompile(`\s+`)
 	reEqQ   = regexp.MustCompile(`(\w+)\s*=\s*\?`)
 	reIns   = regexp.MustCompile(`^insert into (\S+) \(([^)]*)\) values \(([^)]*)\)$`)
-	reSel   = regexp.MustCompile(`^select (.*) from (\S+) where (.*) for update$`)
+	reSel   = regexp.MustCompile(`^select (.*) from (\S+) where (.*?)( for update)?$`)
 	reUpd   = regexp.MustCompile(`^update (\S+) set (.*) where (.*)$`)
 	reDel   = regexp.MustCompile(`^delete from (\S+) where (.*)$`)
 	reBiz   = regexp.MustCompile(`^update biz set n = n \+ 1 where xid = \? and branch_id = \? and kind = \?$`)
@@ -204,7 +207,7 @@ func (c *conn) parse(q string) parsed {
 	if m := reSel.FindStringSubmatch(n); m != nil && m[2] == tbl {
 		want := "xid, branch_id, action_name, status, gmt_create, gmt_modified"
 		if reSpace.ReplaceAllString(m[1], " ") == want && !strings.Contains(m[3], " or ") {
-			return parsed{kind: sSel, cols: eqCols(m[3])}
+			return parsed{kind: sSel, cols: eqCols(m[3]), nolock: m[4] == ""}
 		}
 	}
 	if m := reUpd.FindStringSubmatch(n); m != nil && m[1] == tbl && !strings.Contains(m[3], " or ") {
@@ -479,13 +482,17 @@ func (s *stmt) Query(args []driver.Value) (driver.Rows, error) {
 		return nil, errors.New("fakedrv: not a query statement")
 	}
 	k, _ := keyOf(s.p.cols, args)
-	if err := c.sess.op(OpSel, &k); err != nil {
+	kp := &k
+	if s.p.nolock {
+		kp = nil // never waits for a lock
+	}
+	if err := c.sess.op(OpSel, kp); err != nil {
 		return nil, err
 	}
 	st := c.sess.Store
 	st.mu.Lock()
 	defer st.mu.Unlock()
-	if o, held := st.owner[k]; held && o != c.sess.ID {
+	if o, held := st.owner[k]; held && o != c.sess.ID && !s.p.nolock {
 		c.sess.Misuse = "lock conflict reached the store (scheduler bug)"
 		return nil, &mysql.MySQLError{Number: 1205, Message: "Lock wait timeout exceeded"}
 	}
@@ -493,8 +500,10 @@ func (s *stmt) Query(args []driver.Value) (driver.Rows, error) {
 	if !ok {
 		return &rows{}, nil
 	}
-	if err := c.lock(k); err != nil {
-		return nil, err
+	if !s.p.nolock {
+		if err := c.lock(k); err != nil {
+			return nil, err
+		}
 	}
 	return &rows{data: [][]driver.Value{{k.xid, k.branch, r.action, r.status, r.create, r.modify}}}, nil
 }
